@@ -149,10 +149,13 @@ Proof. exact write_v2_header_wraps. Qed.
 Print Assumptions C15_offset_impossible.
 
 (* ---- root module: SelectiveCar --------------------------------------------------------------------- *)
+(* k = number of OnNewCarBlock callbacks registered (with Write, resp. with Prepare for Dump);
+   the callback observations are the event log: (callback index, Block) in call order, and
+   [reports i evs] is what callback number i was told *)
 Theorem C15_exact_once_selective_car :
-  forall roots ls ok,
-    fst (fst (sc_write roots ls ok)) = enc_payload roots (first_occ ls)
-    /\ snd (sc_write roots ls ok) = ok.
+  forall k roots ls ok,
+    fst (fst (sc_write k roots ls ok)) = enc_payload roots (first_occ ls)
+    /\ snd (sc_write k roots ls ok) = ok.
 Proof. exact sc_write_exact. Qed.
 Print Assumptions C15_exact_once_selective_car.
 
@@ -163,27 +166,57 @@ Theorem C15_announced_size_prepare :
 Proof. exact sc_prepare_spec. Qed.
 Print Assumptions C15_announced_size_prepare.
 
-(* Dump after Prepare = Write: bytes and callbacks; Size() is their length.  The store must
-   still return for each prepared CID the bytes it returned during Prepare. *)
+(* Dump after Prepare = Write: bytes and the whole callback event log; Size() is their length.
+   The store must still return for each prepared CID the bytes it returned during Prepare. *)
 Theorem C15_dump_eq_write :
-  forall store roots ls size hroots cids,
+  forall k store roots ls size hroots cids,
     sc_prepare roots ls true = Some (size, hroots, cids) ->
     Forall (fun b => store (fst b) = Some (snd b)) (first_occ ls) ->
-    sc_dump store hroots cids = sc_write roots ls true
-    /\ size = blen (fst (fst (sc_write roots ls true))).
+    sc_dump k store hroots cids = sc_write k roots ls true
+    /\ size = blen (fst (fst (sc_write k roots ls true))).
 Proof. exact sc_dump_eq_write. Qed.
 Print Assumptions C15_dump_eq_write.
 
-(* each OnNewCarBlock callback: the first occurrences in order, and (Offset, Size) is the
-   position of that block's section in the bytes written *)
+(* with different numbers of callbacks on the two sides: same bytes, and every callback index
+   registered on both sides is told exactly the same reports *)
+Theorem C15_dump_reports_eq_write :
+  forall kw kd store roots ls size hroots cids,
+    sc_prepare roots ls true = Some (size, hroots, cids) ->
+    Forall (fun b => store (fst b) = Some (snd b)) (first_occ ls) ->
+    fst (fst (sc_dump kd store hroots cids)) = fst (fst (sc_write kw roots ls true))
+    /\ forall i, (i < kw)%nat -> (i < kd)%nat ->
+         reports i (snd (fst (sc_dump kd store hroots cids)))
+         = reports i (snd (fst (sc_write kw roots ls true))).
+Proof. exact sc_dump_reports_eq_write. Qed.
+Print Assumptions C15_dump_reports_eq_write.
+
+(* for ANY number k of registered callbacks: every callback i < k is told the first occurrences in
+   order, each (Offset, Size) being the position of that block's section in the bytes written; all
+   callbacks are told the same; no event carries an index >= k *)
 Theorem C15_callbacks :
-  forall roots ls ok out cbs ok',
-    sc_write roots ls ok = (out, cbs, ok') ->
-    map (fun c => (cb_cid c, cb_data c)) cbs = first_occ ls
-    /\ Forall (fun c => take (cb_size c) (drop (cb_off c) out) = enc_section (cb_cid c) (cb_data c)
-                        /\ cb_off c + cb_size c <= blen out) cbs.
+  forall k roots ls ok out evs ok',
+    sc_write k roots ls ok = (out, evs, ok') ->
+    (forall i, (i < k)%nat ->
+       map (fun c => (cb_cid c, cb_data c)) (reports i evs) = first_occ ls
+       /\ Forall (fun c => take (cb_size c) (drop (cb_off c) out) = enc_section (cb_cid c) (cb_data c)
+                           /\ cb_off c + cb_size c <= blen out) (reports i evs))
+    /\ (forall i j, (i < k)%nat -> (j < k)%nat -> reports i evs = reports j evs)
+    /\ (forall e, In e evs -> (fst e < k)%nat).
 Proof. exact sc_write_callbacks. Qed.
 Print Assumptions C15_callbacks.
+
+(* the same for the callbacks given to Prepare and invoked by Dump *)
+Theorem C15_callbacks_dump :
+  forall k store roots ls size hroots cids out evs ok,
+    sc_prepare roots ls true = Some (size, hroots, cids) ->
+    Forall (fun b => store (fst b) = Some (snd b)) (first_occ ls) ->
+    sc_dump k store hroots cids = (out, evs, ok) ->
+    forall i, (i < k)%nat ->
+      map (fun c => (cb_cid c, cb_data c)) (reports i evs) = first_occ ls
+      /\ Forall (fun c => take (cb_size c) (drop (cb_off c) out) = enc_section (cb_cid c) (cb_data c)
+                          /\ cb_off c + cb_size c <= blen out) (reports i evs).
+Proof. exact sc_dump_callbacks. Qed.
+Print Assumptions C15_callbacks_dump.
 
 (* ---- root module: WriteCar / WriteCarWithWalker ------------------------------------------------------ *)
 Theorem C15_exact_once_write_car :
